@@ -23,3 +23,18 @@ claim('C02', 'fault_enumeration',
       'Each run is a 1-3 step history of one SP whose trust store changes at simulated events; at every step a trusted member, an untrusted key, a trusted certificate paired with a foreign key, tampered signed content or a same-key twin certificate signs one of the four inbound kinds (KeyInfo present or absent), and the transport places the SP clock inside the certificate window or on NotBefore/NotAfter +/- {0,1ns,1s}; a store error can fire on the k-th call. Oracle: reference rule for honoured signatures (DER identity, inclusive window at the SP clock, single-member rule without KeyInfo) and the never-downgrade invariant (bad root signature around good assertion signatures is an error).',
       'trusted: stub IdP signer and certificate minting (stub CA; the library never checks chains)',
       'DESIGN.md 4 C02')
+claim('C01', 'exploration',
+      'deterministic simulation: byzantine transport over a history of genuine messages; conservation oracle over the IdP issue log',
+      'A trusted IdP, an untrusted IdP and an attacker share the simulated network; the adversary builds every delivered message from the history of genuine messages with 20 operators (XSW wrap catalogue, splice, strip, re-sign, trusted-certificate-foreign-key, evil sibling, nesting, duplicate, shadow attribute, comment/CDATA, namespace tricks, relocate/swap signatures, attacker-encrypt, replay after roll-over), raw or DEFLATE. At every accept each returned assertion must equal, field for field, an issue-log unit signed by a store member valid at the SP clock, sit directly under the Response, and the summary must come from the first such assertion. Directed prefix enumerates operator x victim placement x parameters; the rest is seeded search.',
+      'trusted: stub IdP issue log and normaliser; universality over all byte strings is sampled, not proved',
+      'DESIGN.md 4 C01')
+claim('C04', 'exploration',
+      'deterministic simulation: the adversarial SSO runs of C01 and logout runs of C10 evaluated with the flag oracle',
+      'Every true SignatureValidated / ResponseSignatureValidated must correspond to an issue-log unit of exactly that element kind honoured at the SP clock with equal fields; all indicators false with checking off; with checking on and the Response flag false every returned assertion is individually validated; the summary flag mirrors the Response flag. Same fault space as C01 and C10 plus skip-signature configurations.',
+      'trusted: stub IdP issue log',
+      'DESIGN.md 4 C04')
+claim('C10', 'exploration',
+      'deterministic simulation: both logout flows with non-conforming IdP, byzantine transport and kind confusion; logout reference model and flag oracle',
+      'LogoutRequest and LogoutResponse are minted conforming or wrong in one respect, unsigned or signed by a trusted / untrusted key, tampered, wrapped (new or same ID), with relocated or foreign signatures, delivered raw or DEFLATE, to the right or the wrong endpoint, with checking on or off and issuer configured or not. Accept implies the logout model; a single fault yields the typed error naming it; the flag is false with checking off and otherwise true only for an honoured root signature whose fields equal the issue-log unit; a bad root signature is never downgraded.',
+      'trusted: stub IdP; error identity by Go type and SAML name',
+      'DESIGN.md 4 C10')
